@@ -113,6 +113,9 @@ func solveOne(u *Unit, ob *Obligation, cfg *SolverCfg, idx int) {
 	if ob.Kind == "vacuity" && tmo > 3 {
 		tmo = 3
 	}
+	if ob.KnownFail && tmo > 6 {
+		tmo = 6
+	}
 	ctx, cancel := context.WithTimeout(context.Background(), time.Duration(tmo+2)*time.Second)
 	defer cancel()
 	ch := make(chan solveResult, len(cfg.Solvers))
@@ -202,7 +205,7 @@ func retryUndecided(units []*Unit, cfg *SolverCfg, timeoutS int) int {
 	var jobs []job
 	for _, u := range units {
 		for _, ob := range u.em.obls {
-			if ob.Kind != "vacuity" && (ob.Result == "timeout" || ob.Result == "unknown") && ob.File != "" {
+			if ob.Kind != "vacuity" && !ob.KnownFail && (ob.Result == "timeout" || ob.Result == "unknown") && ob.File != "" {
 				jobs = append(jobs, job{u, ob})
 			}
 		}
